@@ -419,6 +419,8 @@ class Diff:
         self.line_monitor = None      # optional: property predicate on each implementation line
         self.monitor_lines = 0
         self.base_timeout = 10
+        self.max_continuations = 400
+        self.cont_budget_s = 90 if ctx.tier == "quick" else 600
         self.fail_budget_s = 240 if ctx.tier == "quick" else 1200   # wall time allowed for isolating + shrinking failures
         self.fail_spent = 0.0
 
@@ -526,6 +528,30 @@ class Diff:
         verdict, why, sig = self.prop.classify(small, impl, crash, model)
         if crash is not None:
             sig = crash
+        if verdict != "violation" and crash is None and hasattr(self.prop, "continuations"):
+            # the difference found is one of representation only (the theorems no longer speak about this
+            # code, but no clause of the property fails on this input): look for a continuation of the
+            # shrunk history on which a clause of the property itself fails on the real code
+            t0, tried, found = time.time(), 0, None
+            saved2, self.base_timeout = self.base_timeout, 6
+            try:
+                for cont in self.prop.continuations(small, ctx.rng("cont:" + name)):
+                    tried += 1
+                    if tried > self.max_continuations or time.time() - t0 > self.cont_budget_s:
+                        break
+                    i2, c2, n2, m2 = self.both(small + cont)
+                    v2, w2, s2 = self.prop.classify(small + cont, i2, c2, m2)
+                    if c2 is not None or v2 == "violation":
+                        found = (small + cont, i2, c2, n2, m2, v2, w2, c2 if c2 else s2)
+                        break
+            finally:
+                self.base_timeout = saved2
+            ctx.stats["continuations_tried"] = ctx.stats.get("continuations_tried", 0) + tried
+            if found:
+                small, impl, crash, info, model, verdict, why, sig = found
+                name = name + "+continuation"
+                if crash is not None:
+                    verdict = "violation"
         replay = save_replay(ctx, {
             "property": ctx.prop_id, "kind": "correspondence", "case": name, "area": self.area,
             "lines": small, "impl_out": impl, "model_out": model, "crash": crash,
